@@ -322,6 +322,20 @@ def _decode(img, want_content, max_nodes):
             img.invalid.append("sb: compressor options block is compressed")
         img.comp_opts = blk
         data_start = 96 + stored
+        # per-compressor rules of doc/format.adoc "Compression Options"
+        if sb["comp"] == 2:
+            img.invalid.append("sb: compressor options present for LZMA (must never be)")
+        expect = {1: 8, 3: 8, 4: 8, 5: 8, 6: 4}.get(sb["comp"])
+        if expect is not None and len(blk) != expect:
+            img.invalid.append("sb: compressor options block has %d bytes, expected %d for compressor %d" % (len(blk), expect, sb["comp"]))
+        if sb["comp"] == 5 and len(blk) >= 8:
+            ver, lzfl = struct.unpack_from("<II", blk, 0)
+            if ver != 1:
+                img.invalid.append("sb: LZ4 options version %d (must be 1)" % ver)
+            if lzfl & ~1:
+                img.invalid.append("sb: LZ4 options with unknown flags %#x" % lzfl)
+    elif sb["comp"] == 5:
+        img.invalid.append("sb: LZ4 image without compressor options (they always have to be present)")
     # ---- tables
     img.ids = [struct.unpack("<I", e)[0] for e in _read_table(img, sb["id_table"], sb["id_count"], 4, 2048, "id", None)]
     if sb["frag_table"] != NONE:
